@@ -11,6 +11,9 @@ import (
 	"strconv"
 
 	"github.com/hashicorp/hcl-lang/reference"
+	"github.com/hashicorp/hcl-lang/schema"
+	"github.com/hashicorp/hcl-lang/lang"
+	"github.com/zclconf/go-cty/cty"
 )
 
 func init() { props["debug-c09"] = debugC09 }
@@ -114,4 +117,54 @@ func debugC18(run *Run, replay string) {
 			fmt.Printf("  cand %s\n", c.Label)
 		}
 	}
+}
+
+func init() { props["debug-vt"] = debugVT }
+
+func debugVT(run *Run, replay string) {
+	for i := 0; i < 40; i++ {
+		valueTargetCases(run, rand.New(rand.NewSource(subSeed(run.Res.Seed, i))), 50)
+	}
+}
+
+func init() { props["debug-vt2"] = debugVT2 }
+
+func debugVT2(run *Run, replay string) {
+	cons := schema.List{Elem: schema.OneOf{schema.Reference{Address: &schema.ReferenceAddrSchema{ScopeId: "provider"}}, schema.LiteralType{Type: cty.String}}}
+	sch := &schema.BodySchema{Attributes: map[string]*schema.AttributeSchema{"attr": {IsOptional: true, Constraint: cons,
+		Address: &schema.AttributeAddrSchema{Steps: schema.Address{schema.StaticStep{Name: "var"}, schema.AttrNameStep{}}, AsExprType: true}}}}
+	w := newWorld()
+	w.AddPath("p", sch, map[string]string{"main.tf": "attr = [aws.west, \"x\"]\n"}, nil)
+	pd, _ := w.Dec.Path(lang.Path{Path: "p", LanguageID: "hcl"})
+	ts, _ := pd.CollectReferenceTargets()
+	fmt.Println(Show(targetsS(ts)))
+}
+
+func init() { props["debug-wo"] = debugWO }
+
+func debugWO(run *Run, replay string) {
+	sch := dynFocusSchema(rand.New(rand.NewSource(1)))
+	for _, src := range []string{"resource {\n  secret_wo = \"x\"\n}\n", "resource \"aws\" {\n  secret_wo = \"x\"\n}\n", "resource aws {\n}\n"} {
+		w := newWorld()
+		w.AddPath("p", sch, map[string]string{"main.tf": src}, nil)
+		pd, _ := w.Dec.Path(lang.Path{Path: "p", LanguageID: "hcl"})
+		res := safeCall("CollectWriteOnlyAttributes", func() (interface{}, error) { return pd.CollectWriteOnlyAttributes() })
+		fmt.Printf("%q -> %v panic=%q err=%v\n", src, res.Val, res.Panic, res.Err)
+	}
+	// a resource block type without a static body
+	sch2 := &schema.BodySchema{Blocks: map[string]*schema.BlockSchema{"resource": {Labels: []*schema.LabelSchema{{Name: "type"}}}}}
+	{
+		sch3 := &schema.BodySchema{Blocks: map[string]*schema.BlockSchema{"resource": {Labels: []*schema.LabelSchema{{Name: "type"}},
+			Body: &schema.BodySchema{Attributes: map[string]*schema.AttributeSchema{"pw": {IsOptional: true, IsWriteOnly: true, Constraint: schema.LiteralType{Type: cty.String}}}}}}}
+		w := newWorld()
+		w.AddPath("p", sch3, map[string]string{"main.tf": "resource {\n  pw = \"x\"\n}\n"}, nil)
+		pd, _ := w.Dec.Path(lang.Path{Path: "p", LanguageID: "hcl"})
+		res := safeCall("CollectWriteOnlyAttributes", func() (interface{}, error) { return pd.CollectWriteOnlyAttributes() })
+		fmt.Printf("static wo, no label -> %v panic=%q err=%v\n", res.Val, res.Panic, res.Err)
+	}
+	w := newWorld()
+	w.AddPath("p", sch2, map[string]string{"main.tf": "resource \"a\" {\n  x = 1\n}\n"}, nil)
+	pd, _ := w.Dec.Path(lang.Path{Path: "p", LanguageID: "hcl"})
+	res := safeCall("CollectWriteOnlyAttributes", func() (interface{}, error) { return pd.CollectWriteOnlyAttributes() })
+	fmt.Printf("no body -> %v panic=%q err=%v\n", res.Val, res.Panic, res.Err)
 }
